@@ -86,7 +86,7 @@ theorem SwapType_name_other (a : account.Account)
   unfold account.Registry.SwapType.name
   simp [account.Account.Type_, h.1, h.2.1, h.2.2.1, h.2.2.2]
 
-example : account.Registry.SwapType.name.externals = [] := rfl
+theorem name_externals_pinned : account.Registry.SwapType.name.externals = [] := rfl
 
 /-- `SwapType` as the untranslated statements around the fragment compose it: the account that `as.Get` returns for the computed
 name (a hit in the cache `as.swaps` returns what an earlier call stored there: the same account) -/
